@@ -595,6 +595,7 @@ type Specs struct {
 	GlobalInvs      []*GlobalInv
 	GuardedBy       map[string]string // global var -> lock global
 	SharedErrs      map[string]bool   // package-level error objects every evaluation can obtain (declared: shared_errors)
+	ProcessState    map[string]bool   // package-level variables that change after initialisation (declared: process_state)
 	Errors          []string
 }
 
@@ -644,7 +645,7 @@ func (sp *Specs) parseFile(pkg string, lines []string) {
 		if i := strings.IndexAny(t, " \t"); i >= 0 {
 			word, rest = t[:i], strings.TrimSpace(t[i+1:])
 		}
-		if strings.HasSuffix(word, ":") && (word == "valueresults:" || word == "traced:" || word == "shared_errors:") {
+		if strings.HasSuffix(word, ":") && (word == "valueresults:" || word == "traced:" || word == "shared_errors:" || word == "process_state:") {
 			word = strings.TrimSuffix(word, ":")
 		}
 		switch word {
@@ -942,6 +943,18 @@ func (sp *Specs) parseFile(pkg string, lines []string) {
 			lock := strings.TrimSpace(rest[:i])
 			for _, v := range strings.Split(rest[i+1:], ",") {
 				sp.GuardedBy[strings.TrimSpace(v)] = lock
+			}
+			cur = nil
+		case "process_state":
+			// process_state: object.symHashTable, ...  - package-level variables that may change after package
+			// initialisation (state that outlives an evaluation). Any other such variable is reported by the C19 check.
+			if sp.ProcessState == nil {
+				sp.ProcessState = map[string]bool{}
+			}
+			for _, v := range strings.Split(strings.TrimPrefix(rest, ":"), ",") {
+				if v = strings.TrimSpace(v); v != "" {
+					sp.ProcessState[v] = true
+				}
 			}
 			cur = nil
 		case "shared_errors":
